@@ -103,7 +103,7 @@ func (g *gen) leaf() plgen.Stmt {
 		return plgen.Stmt{K: "exit"}
 	default:
 		if len(g.callees) > 0 {
-			return plgen.Stmt{K: "use", Arg: g.callees[g.r.Intn(len(g.callees))]}
+			return plgen.Stmt{K: "use", Arg: g.callees[g.r.Intn(len(g.callees))], N: int64(g.r.Intn(3))}
 		}
 		return plgen.Stmt{K: "raw", Op: "obs_var", V: v, Arg: fmt.Sprintf("obs(%s)", v)}
 	}
@@ -211,7 +211,7 @@ func (Prop) Generate(seed uint64, tier string) *core.Plan {
 	g.callees = append(append([]string{}, mids...), leaves...)
 	body := g.block(0, 9)
 	if len(g.callees) > 0 && !usesUse(body) {
-		body = append(body, plgen.Stmt{K: "use", Arg: g.callees[r.Intn(len(g.callees))]})
+		body = append(body, plgen.Stmt{K: "use", Arg: g.callees[r.Intn(len(g.callees))], N: int64(r.Intn(3))})
 		body = append(body, g.leaf())
 	}
 	w.Scripts["r.p"] = body
